@@ -300,3 +300,45 @@ Proof.
   - eauto.
   - pose proof (fire_once _ _ _ _ _ _ _ (o_seq o) H HF). pose proof (nruns_in _ _ _ _ _ HR) as Ge. rewrite nruns_filter in Ge. lia.
 Qed.
+
+(* a cancel issued from a foreign thread (queued as a functor) takes effect when doPendingFunctors runs it:
+   if the id is registered when the batch of functors starts, it is dead when the batch ends *)
+Lemma run_functors_cancels : forall fs st st' ev a o, Inv st -> DInv st (padds fs) ->
+  hget a (heap st) = Some o -> In (o_exp o, a) (timers st) -> In (PCancel a (o_seq o)) fs ->
+  run_functors st fs = Ok (st', ev) -> gone st' (o_seq o).
+Proof.
+  induction fs as [|[b|b s] r IH]; intros st st' ev a o I D G Hi Hc H; [contradiction| |]; cbn [run_functors] in H.
+  - destruct Hc as [Hc|Hc]; [discriminate|].
+    cbn [padds] in D. destruct D as [N Dt]. inversion N as [|x l NIb N']; subst.
+    destruct (Dt b (or_introl eq_refl)) as [[ob [Gb Pob]] NDb].
+    assert (D' : DInv st (padds r)) by (split; auto; intros c Hc'; apply Dt; right; auto).
+    pose proof (add_in_loop_good st b ob _ I Gb NDb Pob D' NIb) as GA.
+    destruct (add_in_loop st b) as [[st1 e1]| |] eqn:E1; cbn [bind good] in *; try discriminate.
+    destruct (run_functors st1 r) as [[st2 e2]| |] eqn:E2; cbn [bind] in H; try discriminate.
+    inversion H; subst. destruct GA as (I1 & D1 & _ & _ & Eh & _). cbn [fst] in *.
+    eapply (IH st1 st' e2 a o I1 D1); eauto; [rewrite Eh; auto | eapply add_in_loop_timers; eauto].
+  - cbn [padds] in D. pose proof (cancel_good st b s _ I D) as GC.
+    destruct (cancel_in_loop st b s) as [st1| |] eqn:E1; cbn [bind good] in *; try discriminate.
+    destruct GC as (I1 & D1 & _ & _).
+    assert (E1' : cb_step st (CCancel b s) = Ok (st1, [])) by (cbn [cb_step]; rewrite E1; reflexivity).
+    destruct (cb_step_obj _ _ _ _ _ _ I G E1') as [[G' T']|[_ Gn]].
+    + destruct Hc as [Hc|Hc].
+      * (* this is the cancel of (a, seq): the id is in activeTimers_, so it is erased and deleted *)
+        exfalso. inversion Hc; subst b s.
+        destruct (i_ta _ _ _ _ I _ _ Hi) as (o2 & G2 & _ & HA). rewrite G in G2. inversion G2; subst o2.
+        unfold cancel_in_loop in E1. rewrite (sizes_agree_inv _ I) in E1. cbn [assert bind] in E1.
+        apply kmem_iff in HA. rewrite HA in E1. unfold deref in E1. rewrite G in E1. cbn [bind] in E1.
+        destruct (kerase _ (timers st)); try discriminate. destruct (kerase _ (active st)); try discriminate.
+        inversion E1; subst. cbn in G'. rewrite hget_hdel_same in G'. discriminate.
+      * eapply (IH st1 st' ev a o I1 D1); eauto.
+    + eapply run_functors_gone; eauto.
+Qed.
+
+Lemma foreign_cancel_stops : forall c ops st evs a o st' ev, run (init c) ops = Ok (st, evs) ->
+  hget a (heap st) = Some o -> In (o_exp o, a) (timers st) -> In (PCancel a (o_seq o)) (pending st) ->
+  step st RunPending = Ok (st', ev) -> gone st' (o_seq o) /\ (forall dl now t, ~ In (ERun (o_seq o) dl now t) ev).
+Proof.
+  intros c ops st evs a o st' ev H G Hi Hc HS. destruct (reach_top _ _ _ _ H) as (I & D & _). cbn [step] in HS. split.
+  - exact (run_functors_cancels (pending st) (set_pending st []) st' ev a o I D G Hi Hc HS).
+  - destruct (run_functors_shape _ _ _ _ HS) as (_ & NR & _). intros dl now t. eapply rlog_nil_norun; eauto.
+Qed.
